@@ -432,13 +432,29 @@ func (fs LocalFileSystem) Move(ctx context.Context, src, dst string, options *Mo
 		if options.NoOverwrite {
 			return false, NewHTTPError(http.StatusPreconditionFailed, os.ErrExist)
 		}
-		if err := os.RemoveAll(dstPath); err != nil {
+	}
+
+	// An existing destination is set aside rather than removed, so that it
+	// can be put back if the source cannot be moved after all (e.g. it lives
+	// in a directory that cannot be written).
+	aside := ""
+	if !created {
+		seq := atomic.AddUint64(&uploadSeq, 1)
+		aside = filepath.Join(filepath.Dir(dstPath), fmt.Sprintf(".webdav-move-%d-%d", os.Getpid(), seq))
+		if err := os.Rename(dstPath, aside); err != nil {
 			return false, errFromOS(err)
 		}
 	}
 
 	if err := os.Rename(srcPath, dstPath); err != nil {
+		if aside != "" {
+			os.Rename(aside, dstPath)
+		}
 		return false, errFromOS(err)
+	}
+	if aside != "" {
+		// the move has taken place; removing what it replaced is best effort
+		os.RemoveAll(aside)
 	}
 
 	return created, nil
